@@ -254,6 +254,11 @@ def gen_history(cfg, ref, rng):
 
 
 def tolerance_class(cfg):
+    if cfg['family'] == 'idmrg':
+        if cfg.get('max_hours') is not None and cfg['clock'] == 'jumpy':
+            return 'none'
+        # infinite DMRG: Lanczos tolerances and growth statistics restart on resume -> different trajectory
+        return 'dmrg_weak'
     if cfg['family'].startswith('dmrg'):
         if cfg.get('max_hours') is not None and cfg['clock'] == 'jumpy':
             return 'none'  # shelving depends on the clock, which differs between the runs by design
@@ -421,6 +426,11 @@ def run_history(plan, ref_results, pre_bytes, stats):
             return {'invariant': 'disk.no_complete_file', 'detail': detail, 'facts': facts, 'trace': trace}
         if seg + 1 >= max_segments:
             break
+        if cfg['family'] == 'vumps':
+            # vumps.py documents resume_run as NotImplementedError('TODO'): resuming is an explicitly
+            # unsupported feature there, so only the file-consistency half (I1) is checked
+            stats['probes']['vumps_history_ends_at_first_crash'] += 1
+            return None
         rec = recover(world, cfg)
         if rec is None:
             stats['probes']['nothing_to_resume_from_yet'] += 1
